@@ -129,7 +129,8 @@ class Ctx:
         self.viol_keys[key] += 1
         if len(self.viol) < MAX_KEPT_VIOLATIONS or self.viol_keys[key] == 1:
             self.viol.append({'clause': clause, 'witness_key': key, 'detail': str(detail)[:2000],
-                              'case': case if case is not None else self._case, 'shard': self.shard, 'index': self.evals})
+                              'case': case if case is not None else self._case, 'shard': self.shard, 'index': self.evals,
+                              'worker_shards': getattr(self, 'worker_shards', [])})
 
     @contextlib.contextmanager
     def time_limit(self, seconds):
@@ -223,6 +224,9 @@ def _worker_run(i_shard):
     prop_id, tier, seed = _W['args']
     ctx = Ctx(prop_id, tier, seed)
     ctx.shard = shard
+    ctx.shard_index = i
+    ctx.worker_shards = list(_W.setdefault('done', []))     # shards this worker ran before, in order
+    _W['done'].append(i)
     mod = _W['mod']
     t0 = time.time()
     try:
@@ -249,6 +253,7 @@ def write_replay(prop_id, v, seed):
     os.makedirs(d, exist_ok=True)
     doc = {'property': prop_id, 'seed': seed, 'clause': v['clause'], 'witness_key': v['witness_key'],
            'detail': v['detail'], 'case': v['case'], 'shard': v.get('shard'), 'index': v.get('index'), 'tier': v.get('tier'),
+           'worker_shards': v.get('worker_shards', []),
            'needs_history': bool(v.get('needs_history'))}
     sha = hashlib.sha1(json.dumps([prop_id, v['witness_key'], v['case']], sort_keys=True).encode()).hexdigest()[:16]
     path = os.path.join(d, sha + '.json')
@@ -282,6 +287,11 @@ def replay(prop_id, path, as_json=False, history=False):
         if history and doc.get('shard') is not None and doc.get('index'):
             if hasattr(mod, 'setup'):
                 mod.setup(tier)
+            all_shards = list(mod.shards(tier))
+            for si in doc.get('worker_shards', []):         # what the worker had executed before, in the same order
+                pre = Ctx(prop_id, tier, seed)
+                pre.shard = all_shards[si]
+                mod.run_shard(all_shards[si], pre, tier)
             ctx.shard, ctx.stop_after = doc['shard'], int(doc['index'])
             try:
                 mod.run_shard(doc['shard'], ctx, tier)
@@ -300,7 +310,7 @@ def replay(prop_id, path, as_json=False, history=False):
         print('OBS ' + json.dumps(obs, sort_keys=True))
         return 1 if obs else 0
     print(f'replay of {path}: case = {json.dumps(doc["case"])[:1500]}' +
-          (f' (after the {int(doc["index"]) - 1} preceding cases of its shard)' if history and doc.get('index') else ''))
+          (f' (after the cases its worker had executed before: shards {doc.get("worker_shards", [])} and the {int(doc["index"]) - 1} preceding cases of its shard)' if history and doc.get('index') else ''))
     for c, k, d in obs:
         print(f'  violated clause={c} witness_key={k}\n    {d}')
     if not obs:
@@ -341,9 +351,9 @@ def run_check(prop_id, tier, workers=16, confirm=True, write_evidence=True):
     tot = Ctx(prop_id, tier, seed)
     done_shards, capped = 0, False
     mpctx = multiprocessing.get_context('fork')
-    # maxtasksperchild=1: every shard runs in a freshly forked worker, so state that the code under test keeps between calls can only
-    # come from the cases of the same shard (which is what a history replay re-executes)
-    with mpctx.Pool(workers, initializer=_worker_init, initargs=(prop_id, tier, seed), maxtasksperchild=1) as pool:
+    # workers are long-lived (forking one per shard costs ~0.2 s each); every worker remembers which shards it has run, so that a
+    # history replay can re-execute exactly the cases a worker had seen before a violation
+    with mpctx.Pool(workers, initializer=_worker_init, initargs=(prop_id, tier, seed)) as pool:
         it = pool.imap_unordered(_worker_run, list(enumerate(shards)), chunksize=1)
         results = []
         while True:
@@ -415,7 +425,7 @@ def run_check(prop_id, tier, workers=16, confirm=True, write_evidence=True):
                 ok = a[0] == 1 and bb[0] == 1 and a[1] == bb[1] and a[1] is not None
                 if ok:
                     by_key[k]['needs_history'] = True
-                    by_key[k]['detail'] = '[shows only after the preceding cases of its shard: state kept between calls] ' + by_key[k]['detail']
+                    by_key[k]['detail'] = '[shows only after earlier cases were executed in the same process: state kept between calls] ' + by_key[k]['detail']
                     replays[k] = write_replay(prop_id, by_key[k], seed)
             if not ok:
                 print(f'HARNESS-ERROR nondeterminism: replay of {replays[k]} did not reproduce '
